@@ -102,6 +102,18 @@ def walk_checks(ctx, case, t1, t2, tree):
     return n
 
 
+def tree_snapshot(tree):
+    """what the tree view says, node by node: category, path, the two objects and the additional record (repetition counts, ...)"""
+    out = []
+    for cat, levels in tree.items():
+        if cat == 'deep_distance' or not hasattr(levels, '__iter__'):
+            continue
+        for lv in levels:
+            add = lv.additional if isinstance(lv.additional, dict) else {}
+            out.append((cat, lv.path(force='fake'), repr(lv.t1), repr(lv.t2), repr(sorted((str(k), repr(v)) for k, v in add.items()))))
+    return sorted(out)
+
+
 def tree_pairs(tree, verbose, io):
     """(category, path, payload) triples the tree view stands for, through the visibility table"""
     from deepdiff.helper import notpresent
@@ -251,6 +263,7 @@ def run(ctx, impl_only=False):
                 if text or tree:
                     ctx.nontriv((repr(t1), repr(t2), io, rep, vb))
                 ctx.count('io=%s' % io)
+                before = tree_snapshot(tree)
                 ctx.count('nodes', walk_checks(ctx, case, t1, t2, tree))
                 agree(ctx, case, tree, text, vb)
                 # to_dict(view_override) converts between the views
@@ -291,6 +304,22 @@ def run(ctx, impl_only=False):
                             ctx.violate(case, 'pretty() has %d statements, the text view %d changes' % (stm, in_text))
                 except Exception as e:
                     ctx.violate(case, 'pretty() raised %s' % type(e).__name__)
+                # asking for the other presentations does not change the tree view, and the tree behind a text-view object is the same tree
+                try:
+                    tree.to_json(); tree.pretty()
+                except Exception:
+                    pass
+                after = tree_snapshot(tree)
+                if after != before:
+                    ctx.violate(case, 'the tree view changed when the text / JSON / pretty presentations were produced: %r -> %r' % (
+                        [x for x in before if x not in after][:2], [x for x in after if x not in before][:2]))
+                try:
+                    other = tree_snapshot(text.to_dict(view_override='tree'))
+                    if other != before:
+                        ctx.violate(case, "the tree nodes of text.to_dict(view_override='tree') differ from those of the tree view: %r vs %r" % (
+                            [x for x in other if x not in before][:2], [x for x in before if x not in other][:2]))
+                except Exception as e:
+                    ctx.violate(case, "text.to_dict(view_override='tree') raised %s" % type(e).__name__)
                 if not io and vb >= 1 and FAM.in_universe(t1, t2) and not impl_only:
                     reqs.append((case, t1, t2, False, 0.33, True, vb))
         if len(ctx.samples) < 4:
@@ -316,6 +345,7 @@ def table_types(ctx):
     import numpy as np
     from deepdiff import DeepDiff
     pool = [decimal.Decimal('1.5'), decimal.Decimal('2'), decimal.Decimal('-0.25'), b'ab', b'cd', 'é'.encode(), datetime.datetime(2020, 1, 1, 2, 3), datetime.datetime(2021, 5, 6, tzinfo=datetime.timezone.utc),
+            decimal.Decimal('Infinity'), decimal.Decimal('-Infinity'), decimal.Decimal('1E+2'), decimal.Decimal('100'), decimal.Decimal('0E-7'), float('inf'), float('-inf'), 10 ** 40,
             uuid.UUID(int=1), uuid.UUID(int=2), {1, 2}, {2, 3}, {'a'}, (1, 2), (1, 3), (), np.float32(1.5), np.float64(2.5), np.int32(3), np.int64(4), 1, 'a', None, 2.5, True,      # the table's 'type' entry serves old_type / new_type, classes as data are not claimed
             np.array([1, 2]), np.array([1, 3]), np.array([[1.5, 2.0], [0.0, 1.0]])]
     wraps = [lambda x: x, lambda x: [x, 0], lambda x: {'k': x, 'z': 1}, lambda x: {'k': [0, x]}, lambda x: (x, 'q')]
